@@ -24,6 +24,10 @@ fn main() {
             std::fs::write(&out, serde_json::to_vec_pretty(&json!({"parts": v, "small_build": props::small_build()})).unwrap()).unwrap();
         }
         "replay" => {
+            // a replayed history may hang (that can be the violation): watchdog
+            unsafe {
+                libc::alarm(120);
+            }
             let v: Value = serde_json::from_slice(&std::fs::read(&args[2]).unwrap()).unwrap();
             match mhv::replay_value(&v["replay"]) {
                 None => {
